@@ -79,7 +79,13 @@ func classOwnersVia(op string, app []string, via string, missing bool) string {
 			set["C04"] = true
 		case "system":
 			set["C16"] = true
-		case "veto", "storage", "caller", "precommit":
+		case "storage":
+			// a write the storage layer refuses: C07's statement; when it is a write of an index entry of a create/update, also C03's
+			set["C07"] = true
+			if op == "create" || op == "update" {
+				set["C03"] = true
+			}
+		case "veto", "caller", "precommit":
 			set["C07"] = true
 		case "notfound":
 			if strings.Contains(op, "ink") || strings.HasPrefix(op, "rc") {
@@ -250,6 +256,19 @@ func (r *Runner) exec(ctx boltz.MutateContext, s *Step, salt int) (ret string, e
 		} else {
 			err = S.People.DeleteById(ctx, id)
 		}
+	case "deleteWhere":
+		q := "true"
+		switch str(a["k"]) {
+		case "name":
+			q = "name = " + zqlQuote(tok.Real(str(a["v"])))
+		case "grade":
+			q = "grade = " + zqlQuote(tok.Real(str(a["v"])))
+		}
+		if str(a["via"]) == "staff" {
+			err = S.Staff.DeleteWhere(ctx, q)
+		} else {
+			err = S.People.DeleteWhere(ctx, q)
+		}
 	case "createTeam":
 		err = S.Teams.Create(ctx, &schema.Team{Id: id})
 	case "deleteTeam":
@@ -318,6 +337,11 @@ func (r *Runner) exec(ctx boltz.MutateContext, s *Step, salt int) (ret string, e
 	}
 	return ret, err
 }
+
+var zqlEscaper = strings.NewReplacer(`\`, `\\`, `"`, `\"`, "\f", `\f`, "\n", `\n`, "\r", `\r`, "\t", `\t`)
+
+// zqlQuote renders a string as a ZitiQL literal (every other character is legal raw inside the quotes)
+func zqlQuote(s string) string { return `"` + zqlEscaper.Replace(s) + `"` }
 
 func modelRet(s *Step) string {
 	v := s.Last["ret"]
@@ -623,7 +647,7 @@ func presentIds(db map[string]any, key string) map[string]bool {
 // residue is C06's own observation and needs no model state beyond "which ids did this call delete": after a delete
 // the id must not occur anywhere in the file (as key, typed key, bucket name, value or typed value)
 func (r *Runner) residue(at int, tx *bbolt.Tx, before map[string]any, s *Step) {
-	if before == nil || (s.op() != "delete" && s.op() != "deleteTeam") {
+	if before == nil || (s.op() != "delete" && s.op() != "deleteTeam" && s.op() != "deleteWhere") {
 		return
 	}
 	var gone []string
